@@ -166,7 +166,8 @@ SOURCES = [
     "{ g { nn } }", "{ n }", "query ($o: In) { f(o: $o) }", "query ($l: [Int!]) { f(l: $l) }", "query ($e: Color) { f(e: $e) }",
     "{ unknown }", "{ f(zzz: 1) }", "{ f", "", "   ", "\ufeff", "{ f(a: \"\\", "{ f(a: \"\\u12", "fragment F on Query { f }", "{ ...F }",
     "{ ...F } fragment F on Query { ...F }", "subscription { f }", "{ __typename __schema { types { name } } }", "{ f @skip(if: $nope) }",
-    "query ($v: Nope) { f }", "type T { a: Int }", "{ f(a: $v) }", "query ($v: String!) { f(a: $v) }", "{ g { g { g { g { nn } } } } }",
+    "query ($v: Nope) { f }", "type T { a: Int }", "query ($v: ID, $i: Float, $x: Boolean) { f(a: $v) }", "query ($o: [In!]!, $e: [[Color]]) { f }",
+    "query ($v: String = \"d\", $x: Int! = 1, $l: [Int!] = [1], $o: In = {a: 2}, $i: Int) { f(a: $v, i: $i, l: $l, o: $o) m: f(i: $x) }", "{ f(a: $v) }", "query ($v: String!) { f(a: $v) }", "{ g { g { g { g { nn } } } } }",
 ]
 
 VARIABLES = [None, {}, {"v": "s"}, {"v": 1}, {"v": None}, {"x": 1}, {"x": "1"}, {"x": 2 ** 40}, {"x": float("nan")}, {"x": None},
@@ -175,6 +176,80 @@ VARIABLES = [None, {}, {"v": "s"}, {"v": 1}, {"v": None}, {"x": 1}, {"x": "1"}, 
              {"extra": object()}, {"v": b"bytes"}, {"v": ["a"]}, {"o": {"b": "single"}}, {"i": 10 ** 400}]
 
 OP_NAMES = [None, "Q", "A", "B", "Nope", "", "M"]
+
+# keys whose case mappings change their length, empty / long / non-identifier keys
+ODD_KEYS = ["\u0130\u0130\u0130", "a\u0130", "\u00df", "\u0149a", "A", "", "a" * 300, "a b", "\ud800", "\x00", "__proto__", "c ", "B", "\u01f0\u01f0"]
+
+
+def value_palette(rng, depth=0):
+    """Python values a caller may put into a variables mapping: JSON values and the natives around them"""
+    import decimal
+    import fractions
+    k = rng.randrange(34)
+    if k == 0:
+        return 10 ** rng.choice([5000, 4300, 4299, 10000])
+    if k == 1:
+        return -(10 ** 5000)
+    if k == 2:
+        return {rng.choice(ODD_KEYS): rng.choice([1, None, "x"]) for _ in range(rng.randint(1, 3))}
+    if k == 3:
+        d = cur = {}
+        for _ in range(rng.choice([3, 30, 90])):
+            cur["c"] = {}
+            cur = cur["c"]
+        cur[rng.choice(["a", "zzz"] + ODD_KEYS)] = rng.choice([1, "x", None, 10 ** 5000])
+        return d
+    if k == 4:
+        v = rng.choice([1, "x", None])
+        for _ in range(rng.choice([2, 20, 90])):
+            v = [v]
+        return v
+    if k == 5:
+        lst = [1]
+        lst.append(lst)
+        return lst
+    if k == 6:
+        return rng.choice([float("nan"), float("inf"), -float("inf"), -0.0, 1e308, 5e-324, 2.0 ** 31, -2.0 ** 31 - 1, 1.0])
+    if k == 7:
+        return rng.choice([True, False, 0, -1, 2 ** 31 - 1, 2 ** 31, -2 ** 31, -2 ** 31 - 1, 2 ** 53 + 1])
+    if k == 8:
+        return rng.choice([b"bytes", bytearray(b"ba"), (1, 2), {1, 2}, frozenset({"a"}), range(3), 1 + 2j, decimal.Decimal("1.5"), fractions.Fraction(1, 3), object(),
+                           type("S", (str,), {})("sub"), type("D", (dict,), {})(a=1), type("I", (int,), {})(7), Ellipsis, NotImplemented, int, len])
+    if k == 9:
+        return rng.choice(["", "\ud800", "\x00", "a" * 5000, "RED", "red", "1", "true", "null", "\u0130" * 3, "\U0001f600"])
+    if k == 10 and depth < 3:
+        return [value_palette(rng, depth + 1) for _ in range(rng.randint(0, 3))]
+    if k == 11 and depth < 3:
+        return {rng.choice(["a", "b", "c", "zzz"] + ODD_KEYS): value_palette(rng, depth + 1) for _ in range(rng.randint(0, 3))}
+    if k == 12:
+        return {rng.choice([1, None, (1, 2), 1.5, True, b"k"]): 1}       # non-string keys
+    return rng.choice([None, 1, "s", 1.5, {"a": 1}, [1, 2], {"b": ["x"]}, {"c": {"a": 2}}])
+
+
+def safe_repr(v, depth=0):
+    """repr that cannot fail or explode (huge ints, self-referential or very deep values)"""
+    if isinstance(v, int) and not isinstance(v, bool):
+        return f"<int of {v.bit_length()} bits>" if v.bit_length() > 200 else repr(v)
+    if depth > 6:
+        return "..."
+    if isinstance(v, dict):
+        return "{" + ", ".join(safe_repr(k, depth + 1) + ": " + safe_repr(x, depth + 1) for k, x in list(v.items())[:6]) + "}"
+    if isinstance(v, (list, tuple)):
+        return "[" + ", ".join(safe_repr(x, depth + 1) for x in v[:6]) + "]"
+    try:
+        return repr(v)[:120]
+    except Exception:  # noqa: BLE001
+        return f"<{type(v).__name__}>"
+
+
+def gen_variables(rng):
+    names = ["v", "x", "o", "l", "e", "i"]
+    out = {}
+    for n in rng.sample(names, rng.randint(1, 3)):
+        out[n] = value_palette(rng)
+    if rng.random() < 0.1:
+        out[rng.choice(ODD_KEYS + [1, None])] = 1
+    return out
 
 
 def enc_result(res, stage):
@@ -267,6 +342,8 @@ def _vb_chunk(cases):
     out, recs = [], []
     for case in cases:
         sd, source, variables, opname, mode, use_bad = case
+        if isinstance(variables, tuple):
+            variables = gen_variables(random.Random(variables[1]))     # generated here: not every value can be pickled
         rng = random.Random(sd)
         sch = bad_schema if use_bad else schema
         try:
@@ -284,15 +361,15 @@ def _vb_chunk(cases):
                 finally:
                     loop.close()
         except Exception as e:  # noqa: BLE001
-            out.append(("request-raises", {"source": source, "variables": repr(variables), "operation_name": opname, "mode": mode},
+            out.append(("request-raises", {"source": source, "variables": safe_repr(variables), "operation_name": opname, "mode": mode},
                         {"exc": type(e).__name__, "msg": str(e)[:120] if not isinstance(e, StrRaises) else ""}))
             continue
         try:
             rec = enc_result(res, stage)
         except Exception as e:  # noqa: BLE001
-            out.append(("format-raises", {"source": source, "variables": repr(variables), "mode": mode}, type(e).__name__))
+            out.append(("format-raises", {"source": source, "variables": safe_repr(variables), "mode": mode}, type(e).__name__))
             continue
-        rec["_case"] = {"source": source, "variables": repr(variables), "operation_name": opname, "mode": mode, "seed": sd}
+        rec["_case"] = {"source": source, "variables": safe_repr(variables), "operation_name": opname, "mode": mode, "seed": sd}
         recs.append(rec)
     return out, recs
 
@@ -365,7 +442,7 @@ Check == LET c == Cases[i] IN (c.accepted => Lex(c.s).ok) \/ PrintT(ToJson([viol
     n = 1500 if tier == "quick" else 15000
     cases = []
     for k in range(n):
-        cases.append((seed() * 1000003 + k, rng.choice(SOURCES), rng.choice(VARIABLES), rng.choice(OP_NAMES),
+        cases.append((seed() * 1000003 + k, rng.choice(SOURCES), rng.choice(VARIABLES) if k % 2 else ("gen", seed() * 7919 + k), rng.choice(OP_NAMES),
                       rng.choice(["sync", "sync", "async"]), rng.random() < 0.05))
     vrecs = []
     for out, recs in pmap(_vb_chunk, cases, chunk=50):
